@@ -1,0 +1,23 @@
+//! Facade for the configuration loader's entry points (C13, area ConfigLoad):
+//! `Config::from_arg_matches` wants clap matches of the command line that
+//! `Config::config_args` describes; the harness has only the argument list.
+use std::path::Path;
+
+use crate::config::{Config, Source};
+use crate::log::Terminate;
+use crate::manager::Manager;
+
+/// What `main.rs::run_with_cmdline_args` does between `Config::init` and
+/// `run_with_config`: parse `argv` with the production argument definition
+/// and load the configuration it names, relative to `cur_dir`.
+pub fn from_args(
+    argv: &[&str],
+    cur_dir: &Path,
+    manager: &mut Manager,
+) -> Result<(Source, Config), Terminate> {
+    let app = Config::config_args(clap::Command::new("rotonda"));
+    let matches = app
+        .try_get_matches_from(argv)
+        .map_err(|_| Terminate::other(2))?;
+    Config::from_arg_matches(&matches, cur_dir, manager)
+}
